@@ -19,7 +19,7 @@ impl Prop for Calls {
         "C05/calls".into()
     }
     fn rule(&self) -> String {
-        "programs (width 8) with impl blocks of 1-3 functions per type: address literal in any spelling and mappable on the host, with/without receiver, 0-6 integer/pointer parameters (so that some spill to the stack), with/without return type. The emitted crate is linked with a driver that plants a recording trampoline at every declared address, calls every emitted method once with generated argument values and prints what the stub saw. Oracle: exactly one call, stub id = declared address, first argument = object address when there is a receiver, then the arguments in declared order (masked to their width), returned value = the stub's (masked), and the driver's binding of the result to the declared Rust type compiles. Non-trivial: program with >=1 executed call having >=2 parameters or a return value".into()
+        "programs (width 8) with impl blocks of 1-3 functions per type: address literal in any spelling and mappable on the host, with/without receiver, 0-6 integer/pointer parameters (so that some spill to the stack), with/without return type. The emitted crate is linked with a driver that plants a recording trampoline at every declared address, calls every emitted method once (also the copies inherited by derived types, whose receiver must be the base sub-object) with generated argument values and prints what the stub saw. Oracle: exactly one call, stub id = declared address, first argument = object address when there is a receiver, then the arguments in declared order (masked to their width), returned value = the stub's (masked), and the driver's binding of the result to the declared Rust type compiles. Non-trivial: program with >=1 executed call having >=2 parameters or a return value".into()
     }
     fn gen(&self, t: &mut Tape) -> Case {
         let mut cfg = l3_cfg(t);
@@ -28,11 +28,19 @@ impl Prop for Calls {
         cfg.enums = false;
         cfg.ext_vals = false;
         cfg.singletons = false;
+        if t.chance(1, 3) {
+            // inherited address-bound functions on packed derived types, bases at odd offsets
+            cfg.packed_den = 2;
+            cfg.bases = true;
+            cfg.base_num = 2;
+        }
         let (prog, _, _) = gen_prog(t, cfg);
         Case { prog, seed: t.u64() }
     }
     fn judge(&self, c: &Case) -> Outcome {
-        let r = match run_l3(c, &["own"]) {
+        // "forward": the same declared functions called through the copies that derived types inherit (the
+        // receiver the callee sees must be the base sub-object)
+        let r = match run_l3(c, &["own", "forward"]) {
             Ok(r) => r,
             Err(o) => return o,
         };
